@@ -39,6 +39,15 @@ static void onFpe(int) {
   _exit(97);
 }
 
+// occa prints parser diagnostics (debugPrint of the operator/output stacks) on std::cout, which is
+// the protocol channel: silence std::cout while occa code runs
+struct Quiet {
+  std::ostringstream sink;
+  std::streambuf *old;
+  Quiet() : sink(), old(std::cout.rdbuf(sink.rdbuf())) {}
+  ~Quiet() { std::cout.rdbuf(old); }
+};
+
 static std::string hex64(uint64_t v) {
   char b[32];
   snprintf(b, sizeof(b), "%llx", (unsigned long long) v);
@@ -126,6 +135,8 @@ int main() {
         const int ub0 = ubsanReports;
         exprNode *expr = NULL;
         std::string got;
+        std::vector<std::string> pending;
+        Quiet *quiet = new Quiet();
         try {
           tokenVector tokens = tokenizer_t::tokenize(text);
           expr = expressionParser::parse(tokens);
@@ -139,15 +150,17 @@ int main() {
             got = evalGuarded(expr);
             if (got != "trap") {
               std::string again = evalGuarded(expr);
-              if (again != got) hp::oracle("second evaluate() differs: " + got + " then " + again + " for: " + text);
+              if (again != got) pending.push_back("second evaluate() differs: " + got + " then " + again + " for: " + text);
               exprNode *cl = expr->clone();
               std::string viaClone = evalGuarded(cl);
               delete cl;
-              if (viaClone != got) hp::oracle("evaluate() of the clone differs: " + got + " vs " + viaClone + " for: " + text);
+              if (viaClone != got) pending.push_back("evaluate() of the clone differs: " + got + " vs " + viaClone + " for: " + text);
             }
           }
         }
         delete expr;
+        delete quiet;
+        for (const std::string &m : pending) hp::oracle(m);
         if (hostDefined) {
           if (got == "err" || got == "trap" || got == "parse-fail" || got == "noeval" || got == "none")
             hp::oracle("the host compiler computes " + want + " but occa gives " + got + " for: " + text);
